@@ -168,7 +168,8 @@ def r3_isolation(ctx, prog):
             continue
         rets = {mirsum.fmt(ret) for _c, _t, ret in ps}
         if nm == "init_subcontext_with_options":
-            okr = all(x.startswith("I18nContext#I18nContext(RwSignal::new(GetUntracked::get_untracked(") for x in rets)
+            # (the struct literal itself, or a private constructor around it: what matters is that the signal inside is made here)
+            okr = all(re.match(r"^(I18nContext#I18nContext|I18nContext::\w+)\(RwSignal::new\(GetUntracked::get_untracked\(", x) for x in rets)
             what = "a context around `RwSignal::new(<initial>.get_untracked())` created in this call"
         else:
             okr = all(re.match(r"^context::(init_subcontext_with_options|init_i18n_subcontext_with_options)\(", x) for x in rets)
@@ -176,7 +177,7 @@ def r3_isolation(ctx, prog):
         if okr and rets:
             r.inst("%s#returns" % nm, "%d path(s), each returns %s" % (len(ps), what))
         else:
-            odd = sorted(x for x in rets if not (x.startswith("I18nContext#I18nContext(RwSignal::new(") or x.startswith("context::init_")))
+            odd = sorted(x for x in rets if not (re.match(r"^(I18nContext#I18nContext|I18nContext::\w+)\(RwSignal::new\(", x) or x.startswith("context::init_")))
             r.viol("R3:%s#returns" % nm, "on some path the sub-context handed back is not %s but `%s`: parent and sub-context would share one locale" % (what, (odd or sorted(rets))[0][:160]), file=bb.file, line=bb.line)
     fn = ctx.ast.fn(C, "init_subcontext_with_options")
     if fn is not None:
